@@ -440,3 +440,157 @@ func c15ChildProcess(r *vf.Run, dir string) {
 		})
 	}
 }
+
+// c15RejectedQueries: queries that the index rightly refuses (incomplete expression trees, unknown columns) between open
+// and Close must not keep the file held after Close.
+func c15RejectedQueries(r *vf.Run, dir string) {
+	base := filepath.Join(dir, "rejected-base.updog")
+	if err := ix.Build(ix.WriterMemFile, base, []oracle.Row{{"a": "x", "b": "1"}, {"a": "y"}, {"b": "2"}}); err != nil {
+		r.Inconclusive("rejected-queries: " + err.Error())
+		return
+	}
+	for _, opt := range c15Options {
+		cid := "rejected-queries/" + opt
+		if !r.Want(cid) {
+			continue
+		}
+		r.Guard(cid, func() {
+			path := filepath.Join(dir, "rejected-"+opt+".updog")
+			if err := ix.CopyFile(base, path); err != nil {
+				panic(err)
+			}
+			defer os.Remove(path)
+			w := map[string]any{"options": opt, "history": "open, queries the index refuses (no expression, NOT without operand, nil operand, unknown column, unknown group-by column), one good query, Close, Close"}
+			idx, err, ok := tryOpen(r, cid, path, opt, w)
+			r.Eval(1)
+			if !ok || err != nil {
+				return
+			}
+			bad := []*updog.Query{
+				{},
+				{Expr: &updog.ExprNot{}},
+				{Expr: &updog.ExprAnd{Exprs: []updog.Expression{&updog.ExprEqual{Column: "a", Value: "x"}, nil}}},
+				{Expr: &updog.ExprOr{Exprs: []updog.Expression{nil}}},
+				{Expr: &updog.ExprEqual{Column: "nosuch", Value: "x"}},
+				{Expr: &updog.ExprEqual{Column: "a", Value: "x"}, GroupBy: []string{"nosuch"}},
+				{Expr: (*updog.ExprEqual)(nil)},
+			}
+			for i, q := range bad {
+				var qerr error
+				if p, msg, _ := vf.Try(func() { _, qerr = idx.Execute(q) }); p {
+					w["panic"], w["query_number"] = msg, i
+					r.Violation(cid, "query-panics", w)
+					return
+				}
+				if qerr == nil {
+					w["query_number"] = i
+					r.Violation(cid, "incomplete-query-accepted", w)
+					return
+				}
+			}
+			if res, qerr := idx.Execute(&updog.Query{Expr: &updog.ExprEqual{Column: "a", Value: "x"}}); qerr != nil || res.Count != 1 {
+				w["good_query"] = fmt.Sprint(res, qerr)
+				r.Violation(cid, "valid-index-wrong-answers", w)
+			}
+			c1 := idx.Close()
+			c2 := idx.Close()
+			if c1 != nil || c2 != nil {
+				w["close"] = fmt.Sprint(c1, c2)
+				r.Violation(cid, "close-error", w)
+				return
+			}
+			free, perr := mon.LockFree(path)
+			r.Count("lock_probes", 1)
+			r.Count("closes_after_rejected_queries", 1)
+			r.Distinct(cid)
+			if perr != nil || !free {
+				w["probe"] = fmt.Sprint(perr)
+				r.Violation(cid, "lock-kept-after-close", w)
+			}
+		})
+	}
+}
+
+// c15ForeignLock: another descriptor holds an exclusive lock on a valid index for a few seconds while OpenIndex is
+// called. Whether the call waits for the lock or gives up with an error, once the foreign lock is gone and the call has
+// returned (and its index, if any, is closed) the file must be free and stay free.
+func c15ForeignLock(r *vf.Run, dir string) {
+	cid := "foreign-lock"
+	if !r.Want(cid) {
+		return
+	}
+	path := filepath.Join(dir, "foreign-lock.updog")
+	if err := ix.Build(ix.WriterMemFile, path, []oracle.Row{{"a": "x"}, {"a": "y"}}); err != nil {
+		r.Inconclusive(cid + ": " + err.Error())
+		return
+	}
+	defer os.Remove(path)
+	holder, err := os.OpenFile(path, os.O_RDONLY, 0)
+	if err != nil || syscall.Flock(int(holder.Fd()), syscall.LOCK_EX|syscall.LOCK_NB) != nil {
+		r.Inconclusive(cid + ": cannot take the foreign lock")
+		return
+	}
+	hold := time.Duration(r.Pick(7, 12)) * time.Second
+	type res struct {
+		idx *updog.Index
+		err error
+		p   string
+	}
+	done := make(chan res, 1)
+	go func() {
+		var o res
+		if p, msg, _ := vf.Try(func() { o.idx, o.err = updog.OpenIndex(path, updog.WithPreloadedData()) }); p {
+			o.p = msg
+		}
+		done <- o
+	}()
+	var out *res
+	select {
+	case o := <-done:
+		out = &o // gave up (or failed) while the lock was held
+	case <-time.After(hold):
+	}
+	_ = syscall.Flock(int(holder.Fd()), syscall.LOCK_UN)
+	holder.Close()
+	if out == nil {
+		select {
+		case o := <-done:
+			out = &o
+		case <-time.After(60 * time.Second):
+			stacks := joinStacks(mon.Stacks("updog"))
+			if c := mon.ClassifyDump(stacks); c != "" {
+				r.Violation(cid, "open-hangs", map[string]any{"blocked": c, "explanation": "OpenIndex did not return within 60 s after the foreign lock was released"})
+			} else {
+				r.Inconclusive(cid + ": OpenIndex still running 60 s after the foreign lock was released")
+			}
+			return
+		}
+	}
+	r.Eval(1)
+	r.Distinct(cid)
+	w := map[string]any{"foreign_exclusive_lock_held_for": hold.String(), "open_error": fmt.Sprint(out.err), "open_returned_index": out.idx != nil}
+	if out.p != "" {
+		w["panic"] = out.p
+		r.Violation(cid, "open-panics", w)
+		return
+	}
+	if out.idx != nil {
+		if cerr := out.idx.Close(); cerr != nil {
+			w["close"] = cerr.Error()
+			r.Violation(cid, "close-error", w)
+			return
+		}
+	}
+	// the file must be free now, and still be free a little later (nothing of the abandoned attempt may come back for it)
+	for i, wait := range []time.Duration{0, 300 * time.Millisecond, 1500 * time.Millisecond} {
+		time.Sleep(wait)
+		free, perr := mon.LockFree(path)
+		r.Count("lock_probes", 1)
+		if perr != nil || !free {
+			w["probe_number"], w["probe"] = i, fmt.Sprint(perr)
+			r.Violation(cid, "lock-kept-after-failed-open", w)
+			return
+		}
+	}
+	r.Count("opens_against_a_foreign_exclusive_lock", 1)
+}
